@@ -76,7 +76,7 @@ pub fn small(ctx: &mut Ctx, ms: u8, d: u8, literal: bool) {
                     Ok(bin) => {
                         table[idx(a, b)].store(bin as u32, Ordering::Relaxed);
                         let want = spec::bin_of(a, b, msu, du);
-                        if bin != want {
+                        if bin != want && found.wants("part=binning scope=small what=reg2bin-differs-from-spec", key) {
                             found.add(
                                 key,
                                 Violation::new(
@@ -227,7 +227,7 @@ pub fn small(ctx: &mut Ctx, ms: u8, d: u8, literal: bool) {
                     for id in lo..=hi {
                         if (id as usize) < nb && rep[id as usize].is_some() {
                             spec_n += 1;
-                            if !in_r[id as usize] {
+                            if !in_r[id as usize] && found.wants("part=binning scope=small what=reg2bins-differs-from-spec dir=missing", key) {
                                 found.add(
                                     key,
                                     Violation::new(
@@ -241,8 +241,12 @@ pub fn small(ctx: &mut Ctx, ms: u8, d: u8, literal: bool) {
                         }
                     }
                 }
-                if spec_n != ids.len() {
-                    let extra: Vec<_> = ids.iter().filter(|&&i| !spec::in_ranges(&ranges, i as u64)).collect();
+                let extra: Vec<_> = if spec_n != ids.len() {
+                    ids.iter().filter(|&&i| !spec::in_ranges(&ranges, i as u64)).collect()
+                } else {
+                    Vec::new()
+                };
+                if !extra.is_empty() && found.wants("part=binning scope=small what=reg2bins-differs-from-spec dir=extra", key) {
                     found.add(
                         key,
                         Violation::new(
@@ -261,7 +265,14 @@ pub fn small(ctx: &mut Ctx, ms: u8, d: u8, literal: bool) {
                     if hi_row[b] > lo_row[b] {
                         ob += 1;
                         if !in_r[b] {
-                            viol_rewrite.lock().unwrap().insert((b as u32, c, e));
+                            if literal {
+                                viol_rewrite.lock().unwrap().insert((b as u32, c, e));
+                            }
+                            let up = du - spec::level_of(b as u64, du);
+                            let fp = format!("part=binning scope=small what=feature-bin-not-in-region-bins levels-above-leaf={up}");
+                            if !found.wants(&fp, key) {
+                                continue;
+                            }
                             // witness feature
                             let mut wit = None;
                             'w: for fa in 1..=e {
@@ -273,11 +284,10 @@ pub fn small(ctx: &mut Ctx, ms: u8, d: u8, literal: bool) {
                                 }
                             }
                             let (fa, fb) = wit.unwrap_or((0, 0));
-                            let up = du - spec::level_of(b as u64, du);
                             found.add(
                                 key,
                                 Violation::new(
-                                    format!("part=binning scope=small what=feature-bin-not-in-region-bins levels-above-leaf={up}"),
+                                    fp,
                                     format!("geometry ({ms},{d}); feature {fa}..={fb} is stored in bin {b} ({}); region {c}..={e}: reference_sequence.query({ms}, {d}, {c}..={e})", repro_bin(ms, d, fa, fb)),
                                     format!("bin {b} among the region's bins (feature and region intersect)"),
                                     format!("bins {ids:?}"),
